@@ -356,6 +356,17 @@ def plan(tier):
     }
 
 
+
+def OPT_UNITS(tier):
+    """Units repeated in an interpreter started with -O (validation must
+    not live in assert statements or __debug__ blocks)."""
+    us = plan(tier)['units']
+    keep = []
+    for kind, n in [('tokens', 6), ('lines', 2), ('hdr-strings', 4), ('bytes', 6), ('scale', 6)]:
+        keep += [u for u in us if str(u[0]) == kind][:n]
+    return keep
+
+
 def run_unit(unit, tier):
     acc = Acc()
     signal.signal(signal.SIGALRM, _alarm)
